@@ -65,6 +65,7 @@ def finish(ctx, mod, lean_info):
                                 'case': f['case'], 'broken_obligations': ctx.broken[:20],
                                 'disagreements': ctx.disagreements[:5]})
             lines.append('VIOLATION property=%s replay=%s' % (pid, path))
+            lines.append('  (finding key: %s -- %s)' % (key, str(f['what'])[:300].replace('\n', ' ')))
             violations += 1
     elif ctx.broken or ctx.disagreements:
         path = os.path.join(replay_dir, '%s-%s-%d-unproved.json' % (pid, ctx.tier, ctx.seed))
